@@ -427,6 +427,12 @@ def main(argv, here, repo):
         print(herr[0]['harness_error'])
         return 3
 
+    # a property module may compare results of different cases with each other (C19: first call of g after a
+    # history in one process vs first call of g in another, pristine process)
+    if hasattr(mod, 'cross_check'):
+        for i, vv in mod.cross_check(cases, results):
+            results[i]['viol'].append(vv)
+
     # ------------------------------------------------------------ violations
     known = load_known(here)
     by_sig = {}
